@@ -210,12 +210,23 @@ impl ImportedExports {
         ImportedExports::Star => {
           // `Star` does not include `default`, so preserve a previously traced
           // `default` export by upgrading to `StarWithDefault`.
-          if current_subset.0.contains_key("default") {
-            *self = ImportedExports::StarWithDefault;
-          } else {
-            *self = ImportedExports::Star;
+          match current_subset.0.get("default") {
+            Some(Exports::All) => {
+              *self = ImportedExports::StarWithDefault;
+              Some(ImportedExports::Star)
+            }
+            Some(Exports::Subset(_)) => {
+              // only some members of the default export were traced so far
+              // (ex. `Default.Member`) and `StarWithDefault` stands for all of
+              // it, so trace the rest of the default export as well
+              *self = ImportedExports::StarWithDefault;
+              Some(ImportedExports::StarWithDefault)
+            }
+            None => {
+              *self = ImportedExports::Star;
+              Some(ImportedExports::Star)
+            }
           }
-          Some(ImportedExports::Star)
         }
         ImportedExports::StarWithDefault => {
           *self = ImportedExports::StarWithDefault;
